@@ -179,6 +179,48 @@ int main(int argc, char** argv) {
             }
             ev_corr(js, px, py, pearson_ld(px, py));
         }
+        // larger samples: one exact event (n <= 1000 keeps n(n^2-1) and 6*sum d^2 inside 31 bits for TLC) and
+        // residuals against O(n^2) long-double definitions up to the full length
+        for (int rep = 0; rep < 3; ++rep) {
+            const int m = rep == 0 ? (int)rng.range(300, 1000) : (int)rng.range(2, std::max(2, maxlen));
+            std::vector<long> px(m), py(m);
+            std::iota(px.begin(), px.end(), 1);
+            std::iota(py.begin(), py.end(), 1);
+            for (int i = m - 1; i > 0; --i) {
+                std::swap(px[i], px[rng.range(0, i)]);
+                std::swap(py[i], py[rng.range(0, i)]);
+            }
+            if (rep == 0) {
+                // Kendall's pair count is O(n^2) in TLC as well; only Spearman is checked exactly here
+                const arr_real a = to_arr(px), b = to_arr(py);
+                const double sd = (double)m * ((double)m * m - 1);
+                const double s1 = corr(a, b, Correlation::Spearman), s2 = corr(b, a, Correlation::Spearman);
+                const double t1 = s1 * sd, r1 = std::nearbyint(t1), t2 = s2 * sd, r2 = std::nearbyint(t2);
+                js.begin("Spearman").arr("x", px).arr("y", py).num("sq", vh::as_int(r1)).num("sq2", vh::as_int(r2))
+                  .boolean("exact", std::fabs(t1 - r1) <= 1e-6 * sd && std::fabs(t2 - r2) <= 1e-6 * sd).end();
+            }
+            // long-double definitions
+            long double d2 = 0;
+            std::vector<int> rx(m), ry(m);
+            for (int i = 0; i < m; ++i) {
+                rx[i] = (int)px[i], ry[i] = (int)py[i];   // permutations of 1..m: the rank is the value
+                d2 += (long double)(rx[i] - ry[i]) * (rx[i] - ry[i]);
+            }
+            const long double rho = 1 - 6 * d2 / ((long double)m * ((long double)m * m - 1));
+            long long nc = 0, nd = 0;
+            for (int i = 0; i < m; ++i) {
+                for (int k = i + 1; k < m; ++k) {
+                    ((px[i] < px[k]) == (py[i] < py[k]) ? nc : nd) += 1;
+                }
+            }
+            const long double tau = (long double)(nc - nd) / (long double)(nc + nd);
+            const arr_real a = to_arr(px), b = to_arr(py);
+            const double s = corr(a, b, Correlation::Spearman), k = corr(a, b, Correlation::Kendall), p = corr(a, b, Correlation::Pearson);
+            const double tol = 64.0 * m * 2.22e-16;
+            const double worst = std::max({std::fabs(s - (double)rho), std::fabs(k - (double)tau), std::fabs(p - (double)rho)}) / tol;
+            js.begin("CorrBig").num("n", m).boolean("range", std::fabs(s) <= 1 + 1e-12 && std::fabs(k) <= 1 + 1e-12 && std::fabs(p) <= 1 + 1e-12)
+              .num("err_milli", (long)std::min(1e9, worst * 1000)).end();
+        }
     } else {
         return 3;
     }
